@@ -1,5 +1,12 @@
-"""C04 — loading a dataset reproduces its files under every supported layout (DESIGN.md §5 C04)."""
+"""C04 — loading a dataset reproduces its files under every supported layout (DESIGN.md §5 C04).
+
+The model side is the driver op `load_full` (Lean `C04.loadFull`): numeric spike samples/times (rounding half to
+even over exact rationals), concrete defaults, channel positions (linear layout when not distinct), extra per-spike
+attributes, raw traces (C01/C02 reader models, rows from the file sizes) and duration all come from the model; the
+judge only decodes tokens and compares.
+"""
 import hashlib
+from fractions import Fraction
 import numpy as np
 from pathlib import Path
 from . import common as C
@@ -12,8 +19,16 @@ RULE = ('generated directories covering every single-factor variation and random
         'names; (n,) vs (n,1) vectors; presence/absence of spike_clusters, amplitudes, whitening, whitening inverse, '
         'shanks, probes, similar templates, features, template features, raw data (1..3 files, more channels than '
         'the channel map); dense vs sparse templates; id/time dtypes; NaN/inf cells incl. an all-NaN template; extra '
-        'spike_*.npy attributes of right and wrong length; non-monotonic times (must be rejected). Every stored '
-        'dimension >= 2 (size-1 dimensions are squeezed away by the loader: out of scope). non-trivial = every case')
+        'spike_*.npy attributes of right and wrong length; non-monotonic times in both layouts (must be rejected); ALF '
+        'seconds given as exact dyadic rationals whose product with the rate has fractional part .25/.5/.75 (samples = '
+        'round half to even); channel positions that are not all distinct (linear layout); two candidate names for one '
+        'attribute; labelled ALF names incl. templates.waveforms.<label>.npy; raw files with trailing bytes; traces '
+        'indexed by slices / lists / integers; template_scaling with template accesses followed by a re-inspection; '
+        'feature tables stored for a subset of the spikes (pc_feature_spike_ids), template features with and without '
+        'their column / row tables, NaN/inf cells in memory-mapped tables; datasets without templates; sparse '
+        'templates with one local channel. '
+        'Every stored dimension >= 2 (size-1 dimensions are squeezed away by the loader: out of scope). '
+        'non-trivial = every case')
 ASSUMPTIONS = ['np.linalg.inv is opaque (whitening matrices are diagonal powers of two; wm . wmi = I is checked numerically)',
                'np.load / memmap / glob are transport; wildcard patterns match at most one file']
 
@@ -48,6 +63,86 @@ ALF_OF = {'spike_times.npy': 'spikes.samples.npy', 'spike_templates.npy': 'spike
 LAYOUT_KEYS = ('spike_samples', 'spike_times', 'amplitudes', 'spike_templates', 'spike_clusters', 'channel_mapping',
                'channel_positions', 'channel_shanks', 'channel_probes', 'templates', 'template_cols', 'wm', 'wmi',
                'similar', 'n_spikes', 'n_channels', 'traces')
+RAW_BIAS = 100      # raw cell (row r, column c of the concatenated recording) holds r * ncd + c - RAW_BIAS
+
+
+def _pyitem(it):
+    """C01-style item of a case -> Python index"""
+    if 'int' in it:
+        return it['int']
+    if 'list' in it:
+        return list(it['list'])
+    a, b = it['slice']
+    return slice(a, b)
+
+
+def _raw_bytes(case):
+    """-> per raw file the bytes written (header, rows, optional trailing bytes of an incomplete row)"""
+    out = []
+    for i, part in enumerate(case.get('raw') or []):
+        b = b'\1' * case['offset'] + np.array(part, dtype='int16').tobytes()
+        b += b'\2' * (case.get('raw_trailing') or {}).get(str(i), 0)
+        out.append(b)
+    return out
+
+
+def _collect(m, case):
+    def A(x):
+        return None if x is None else _cells(x)
+
+    def S(b):
+        return None if b is None else dict(data=A(b.data), cols=A(b.get('cols', None)), rows=A(b.get('rows', None)))
+    out = dict(
+        spike_samples=[int(x) for x in m.spike_samples], spike_times=[float(x) for x in m.spike_times],
+        amplitudes=A(m.amplitudes), spike_templates=A(m.spike_templates), spike_clusters=A(m.spike_clusters),
+        channel_mapping=A(m.channel_mapping), channel_positions=A(m.channel_positions),
+        positions_float=[float(x) for x in np.asarray(m.channel_positions, dtype=float).ravel()],
+        channel_shanks=A(m.channel_shanks), channel_probes=A(m.channel_probes),
+        templates=A(m.sparse_templates.data) if m.sparse_templates is not None else None,
+        template_cols=A(m.sparse_templates.cols) if m.sparse_templates is not None and m.sparse_templates.cols is not None else None,
+        wm=A(m.wm), wmi=A(m.wmi), similar=A(m.similar_templates),
+        wm_wmi_identity=bool(np.allclose(np.asarray(m.wm, dtype=float) @ np.asarray(m.wmi, dtype=float), np.eye(m.n_channels))),
+        spike_attributes={k: _cells(v) for k, v in m.spike_attributes.items()},
+        metadata={f: {str(k): v for k, v in dd.items()} for f, dd in m.metadata.items()},
+        n_spikes=int(m.n_spikes), n_channels=int(m.n_channels), n_templates=int(m.n_templates), duration=float(m.duration),
+        features=S(m.sparse_features), template_features=S(m.sparse_template_features))
+    if m.traces is not None:
+        n = m.traces.shape[0]
+        out['n_samples'] = int(n)
+        out['traces'] = np.asarray(m.traces[:]).astype(int).tolist()
+        # property-level observable of the traces: the rows returned for each index of the case, as cell ids
+        out['traces_items'] = []
+        for it in case.get('trace_items') or []:
+            rows = np.asarray(m.traces[_pyitem(it)])
+            out['traces_items'].append(dict(ndim=int(rows.ndim), ids=(rows.astype(int) + RAW_BIAS).tolist()))
+    else:
+        out['traces'] = None
+        out['n_samples'] = None
+    return out
+
+
+def _use(m):
+    """Use the loaded model the way a GUI does (coordinator scenario: the state after USE must still be the files)."""
+    done = []
+    for name, call in (('get_template', lambda t: m.get_template(t)),
+                       ('get_template_waveforms', lambda t: m.get_template_waveforms(t)),
+                       ('get_template_unwhitened_off', lambda t: m.get_template(t, unwhiten=False))):
+        for t in range(min(int(m.n_templates), 3)):
+            try:
+                call(t)
+                done.append(name)
+            except Exception:        # what these return is the business of C05/C08/C09, not of C04
+                pass
+    for name, call in (('get_amplitudes_true', lambda: m.get_amplitudes_true()),
+                       ('templates_amplitudes', lambda: m.templates_amplitudes),
+                       ('get_depths', lambda: m.get_depths())):
+        try:
+            call()
+            done.append(name)
+        except Exception:
+            pass
+    return sorted(set(done))
+
 
 
 def _load_dir(d, files, case, again=True, write=True):
@@ -56,45 +151,28 @@ def _load_dir(d, files, case, again=True, write=True):
     for name, f in files.items():
         np.save(d / name, _arr(f))
     dat = []
-    for i, part in enumerate(case.get('raw') or []):
+    for i, b in enumerate(_raw_bytes(case)):
         p = d / ('raw%d.dat' % i)
         if write:
-            with open(p, 'wb') as fh:
-                fh.write(b'\1' * case['offset'])
-                fh.write(np.array(part, dtype='int16').tobytes())
+            p.write_bytes(b)
         dat.append(p.name)
     for name, text in (case.get('text') or {}).items():
         if write:
             (d / name).write_text(text)
     if write:
-        (d / 'params.py').write_text('dat_path = %r\nn_channels_dat = %d\ndtype = "int16"\noffset = %d\nsample_rate = %r\nhp_filtered = False\n' % (
-            dat, case['ncd'], case['offset'], case['rate']))
+        extra = ('template_scaling = %r\n' % case['template_scaling']) if case.get('template_scaling') else ''
+        (d / 'params.py').write_text('dat_path = %r\nn_channels_dat = %d\ndtype = "int16"\noffset = %d\nsample_rate = %r\nhp_filtered = False\n%s' % (
+            dat, case['ncd'], case['offset'], case['rate'], extra))
     before = _hash(d)
     m = load_model(d / 'params.py')
     try:
-        def A(x, scale=True):
-            return None if x is None else _cells(x)
-        out = dict(
-            spike_samples=[int(x) for x in m.spike_samples], spike_times=[float(x) for x in m.spike_times],
-            amplitudes=A(m.amplitudes), spike_templates=A(m.spike_templates), spike_clusters=A(m.spike_clusters),
-            channel_mapping=A(m.channel_mapping), channel_positions=A(m.channel_positions),
-            channel_shanks=A(m.channel_shanks), channel_probes=A(m.channel_probes),
-            templates=A(m.sparse_templates.data) if m.sparse_templates is not None else None,
-            template_cols=A(m.sparse_templates.cols) if m.sparse_templates is not None and m.sparse_templates.cols is not None else None,
-            wm=A(m.wm), wmi=A(m.wmi), similar=A(m.similar_templates),
-            wm_wmi_identity=bool(np.allclose(np.asarray(m.wm, dtype=float) @ np.asarray(m.wmi, dtype=float), np.eye(m.n_channels))),
-            spike_attributes={k: _cells(v) for k, v in m.spike_attributes.items()},
-            metadata={f: {str(k): v for k, v in dd.items()} for f, dd in m.metadata.items()},
-            n_spikes=int(m.n_spikes), n_channels=int(m.n_channels), duration=float(m.duration),
-            features=A(m.sparse_features.data) if m.sparse_features is not None else None,
-            feature_cols=A(m.sparse_features.cols) if m.sparse_features is not None and m.sparse_features.cols is not None else None,
-            tfeatures=A(m.sparse_template_features.data) if m.sparse_template_features is not None else None)
-        if m.traces is not None:
-            n = m.traces.shape[0]
-            out['traces'] = np.asarray(m.traces[:]).astype(int).tolist()
-            out['traces_rows'] = np.asarray(m.traces[list(range(1, n, 2))]).astype(int).tolist() if n > 1 else []
-        else:
-            out['traces'] = None
+        out = _collect(m, case)
+        if case.get('use_then_reinspect') and again:
+            # access templates / amplitudes a few times, then look at the loaded attributes and the directory again
+            out['used'] = _use(m)
+            out2 = _collect(m, case)
+            out['reuse_diff'] = sorted(k for k in LAYOUT_KEYS + ('spike_attributes', 'traces_items', 'duration') if out.get(k) != out2.get(k))
+            # (files touched by these accesses show up in 'changed' / 'created' below)
     finally:
         m.close()
     after = _hash(d)
@@ -120,6 +198,9 @@ def _arr_of(cells):
 
 
 def impl(case):
+    if case.get('kind') == 'round':
+        # np.round itself on exactly representable rationals (the primitive `C04.roundHalfEven` stands for)
+        return [int(x) for x in np.round(np.array([n / d for n, d in case['qs']], dtype='float64'))]
     with C.scratch_dir() as d:
         out = _load_dir(d / 'ks', case['files'], case)
         if case.get('also_alf'):
@@ -132,33 +213,61 @@ def impl(case):
     return out
 
 
+ONE = 4      # token of 1.0 in float arrays (floats are sent as quarter units)
+
+
+def _time_tokens(case):
+    """Exact encoding of the seconds files: every stored float is a dyadic rational; tokens are the numerators over
+    one common power-of-two denominator `tden`."""
+    vals = [Fraction(x) for name, f in case['files'].items() if name.startswith('spikes.times')
+            for x in f['data'] if not isinstance(x, str)]
+    tden = 1
+    for v in vals:
+        tden = max(tden, v.denominator)
+    return tden
+
+
+def _rat(q):
+    q = Fraction(q)
+    return int(q.numerator) if q.denominator == 1 else [int(q.numerator), int(q.denominator)]
+
+
+def _frac(j):
+    return Fraction(j) if isinstance(j, int) else Fraction(j[0], j[1])
+
+
 def model_query(case, impl_res):
+    if case.get('kind') == 'round':
+        return dict(p=PID, op='round', qs=[[int(n), int(d)] for n, d in case['qs']])
     files = []
+    tden = _time_tokens(case)
     for name, f in case['files'].items():
         if name == 'spike_times.npy' and 'float' in f['dtype']:
             # a float spike_times.npy holds samples: tokens are the sample numbers themselves
             data = [x if isinstance(x, str) else int(round(x)) for x in f['data']]
         elif name.startswith('spikes.times'):
-            # seconds are sent to the model as exact sample tokens (seconds * rate)
-            data = [x if isinstance(x, str) else int(round(x * case['rate'])) for x in f['data']]
+            # seconds: exact numerators over tden
+            data = [x if isinstance(x, str) else int(Fraction(x) * tden) for x in f['data']]
         else:
             data = [x if isinstance(x, str) else (int(round(x * 4)) if 'float' in f['dtype'] else int(x)) for x in f['data']]
         data = ['inf' if x == 'ninf' else x for x in data]     # one infinity token in the model: both signs are scrubbed
         files.append([name, dict(shape=f['shape'], data=data)])
-    return dict(p=PID, op='load', files=files)
-
-
-def _interp_times(m, rate):
-    if 'samples_over_rate' in m:
-        return [x / rate for x in m['samples_over_rate']['data']]
-    return [x / rate for x in m['stored']['data']]
+    raw = None
+    if case.get('raw'):
+        raw = dict(sizes=[len(b) for b in _raw_bytes(case)], offset=case['offset'], itemsize=2)
+    return dict(p=PID, op='load_full', files=files, rate=_rat(Fraction(case['rate'])), tden=tden, ncd=case['ncd'],
+                one=ONE, raw=raw, items=case.get('trace_items') or [])
 
 
 def judge(case, impl_res, ans):
     if 'err' in ans:
         return 'MACHINERY: driver error %s' % ans['err']
     m = ans['ok']
-    rate = case['rate']
+    if case.get('kind') == 'round':
+        if impl_res.get('ok') != m['model']:
+            return 'MACHINERY: np.round %s differs from the model\'s round-half-even %s on %s' % (
+                impl_res.get('ok'), m['model'], case['qs'])
+        return None
     if case.get('expect_reject'):
         if m.get('error') != 'non_monotone':
             return 'MACHINERY: model does not reject the non-monotonic case'
@@ -183,62 +292,76 @@ def judge(case, impl_res, ans):
     exp_created = [f for f in m['files_after'] if f not in case['files']]
     if sorted(ok['created']) != sorted(exp_created):
         return 'SPEC: loading created %s, expected exactly %s' % (ok['created'], sorted(exp_created))
-    # values
-    samples = m['samples']
-    if 'file' in samples:
-        exp_s = samples['file']['data']
-    else:
-        exp_s = [int(np.round((x / rate) * rate)) for x in samples['rounded_times']['data']]
-    if ok['spike_samples'] != exp_s:
-        return 'SPEC: spike samples %s, expected %s' % (ok['spike_samples'][:8], exp_s[:8])
-    if ok['spike_times'] != _interp_times(m['times'], rate):
+    # spike samples and times: the model's numbers (exact rationals; a float64 quotient / stored float is the
+    # correctly rounded value of the rational)
+    if ok['spike_samples'] != m['spike_samples']:
+        return 'SPEC: spike samples %s, expected %s (file, or the seconds times the rate rounded half to even)' % (
+            ok['spike_samples'][:8], m['spike_samples'][:8])
+    if ok['spike_times'] != [float(_frac(q)) for q in m['spike_times']]:
         return 'SPEC: spike times are not samples / rate (or the stored seconds)'
-    for key, mk, default in (('amplitudes', 'amplitudes', None), ('spike_templates', 'spike_templates', None),
-                             ('spike_clusters', 'spike_clusters', None), ('channel_mapping', 'channel_map', None),
-                             ('channel_positions', 'channel_positions', None), ('templates', 'templates', None),
-                             ('template_cols', 'template_cols', None)):
+    for key, mk in (('n_spikes', 'n_spikes'), ('n_channels', 'n_channels'), ('n_templates', 'n_templates')):
+        if ok.get(key) is not None and ok[key] != m[mk]:
+            return 'SPEC: %s = %s, expected %s' % (key, ok[key], m[mk])
+    # arrays: file contents (squeezed, NaN/inf scrubbed) or the documented default, all from the model
+    for key, mk in (('amplitudes', 'amplitudes'), ('spike_templates', 'spike_templates'),
+                    ('spike_clusters', 'spike_clusters'), ('channel_mapping', 'channel_map'),
+                    ('templates', 'templates'), ('template_cols', 'template_cols'),
+                    ('channel_shanks', 'channel_shanks'), ('channel_probes', 'channel_probes'),
+                    ('wm', 'wm'), ('similar', 'similar')):
         if ok[key] != m[mk]:
-            return 'SPEC: %s %s differs from the file contents (squeezed, NaN/inf scrubbed) %s' % (key, str(ok[key])[:200], str(m[mk])[:200])
-    nc = ok['n_channels']
-    nt = m['templates']['shape'][0] if m['templates'] else None
-    for key, mk, default in (('channel_shanks', 'channel_shanks', dict(shape=[nc], data=[0] * nc)),
-                             ('channel_probes', 'channel_probes', dict(shape=[nc], data=[0] * nc)),
-                             ('wm', 'wm', dict(shape=[nc, nc], data=[4 * int(i == j) for i in range(nc) for j in range(nc)])),
-                             ('similar', 'similar', dict(shape=[nt, nt], data=[0] * (nt * nt)) if nt else None)):
-        exp = m[mk] if m[mk] is not None else default
-        if exp is not None and ok[key] != exp:
-            return 'SPEC: %s %s differs from the file / documented default %s' % (key, str(ok[key])[:200], str(exp)[:200])
+            return 'SPEC: %s %s differs from the file contents (squeezed, NaN/inf scrubbed) / documented default %s' % (
+                key, str(ok[key])[:200], str(m[mk])[:200])
+    pos = m['channel_positions']
+    if 'file' in pos:
+        if ok['channel_positions'] != pos['file']:
+            return 'SPEC: channel positions %s differ from the file %s' % (str(ok['channel_positions'])[:200], str(pos['file'])[:200])
+    else:
+        exp = [float(_frac(q)) for row in pos['rows'] for q in row]
+        got = ok['positions_float']
+        # np.linspace is a multi-step float computation: DESIGN §3 tolerance
+        if len(got) != len(exp) or any(abs(g - e) > 2. ** -40 * max(1., abs(e)) for g, e in zip(got, exp)):
+            return 'SPEC: channel positions that are not all distinct were not replaced by the linear layout: %s' % str(got)[:200]
     if m['wmi'] is not None and ok['wmi'] != m['wmi']:
         return 'SPEC: inverse whitening matrix differs from the stored file'
     if not ok['wm_wmi_identity'] and (('whitening_mat.npy' in case['files']) or ('whitening_mat_inv.npy' not in case['files'])):
         return 'SPEC: wmi is not the inverse of wm'
-    # spike attributes
-    exp_attr = {}
-    for name, f in case['files'].items():
-        if name.startswith('spike_') and name[6:-4] not in ('clusters', 'templates', 'samples', 'times', 'times_reordered', 'amplitudes'):
-            a = _arr(f).squeeze()
-            if a.shape and a.shape[0] == ok['n_spikes']:
-                a = np.where(np.isnan(a) | np.isinf(a), 0, a) if a.dtype.kind == 'f' else a
-                exp_attr[name[6:-4]] = _cells(a)
-    if ok['spike_attributes'] != exp_attr:
-        return 'SPEC: extra per-spike attributes %s, expected %s' % (sorted(ok['spike_attributes']), sorted(exp_attr))
+    # feature tables: stored arrays with the principal-component axes exchanged, memory-mapped (not scrubbed)
+    for key in ('features', 'template_features'):
+        if ok[key] != m[key]:
+            return 'SPEC: %s %s differ from the stored tables %s' % (key, str(ok[key])[:200], str(m[key])[:200])
+    # extra per-spike attributes
+    if ok['spike_attributes'] != m['spike_attributes']:
+        return 'SPEC: extra per-spike attributes %s, expected %s' % (
+            {k: str(v)[:60] for k, v in sorted(ok['spike_attributes'].items())},
+            {k: str(v)[:60] for k, v in sorted(m['spike_attributes'].items())})
     # traces
     if case.get('raw'):
-        raw = np.array([row for part in case['raw'] for row in part])
-        cm = m['channel_map']['data']
-        exp_tr = raw[:, cm].tolist()
-        if ok['traces'] != exp_tr or ok['traces_rows'] != raw[1::2][:, cm].tolist():
-            return 'SPEC: raw traces are not the data files with columns permuted by the channel map'
-        if ok['duration'] != len(raw) / rate:
-            return 'SPEC: duration'
+        if m['traces'] is None or m['n_samples'] is None:
+            return 'MACHINERY: model shows no traces although raw data was given'
+        if ok['traces'] is None:
+            return 'SPEC: no traces although raw data files are listed'
+        if ok['n_samples'] != m['n_samples']:
+            return 'SPEC: traces have %s samples, the raw files hold %s' % (ok['n_samples'], m['n_samples'])
+        for it, got, exp in zip(case.get('trace_items') or [], ok['traces_items'], m['traces']):
+            if exp is None:
+                return 'MACHINERY: model cannot index the traces with the in-domain item %s' % it
+            if got['ndim'] != 2 or got['ids'] != exp:
+                return 'SPEC: traces[%s] is not raw[%s][:, channel_map]: %s, expected cells %s' % (
+                    it, it, str(got['ids'])[:120], str(exp)[:120])
     elif ok['traces'] is not None:
         return 'SPEC: traces present without raw data'
+    if ok['duration'] != float(_frac(m['duration'])):
+        return 'SPEC: duration %r, expected %r (samples of the raw files over the rate / last spike time)' % (
+            ok['duration'], float(_frac(m['duration'])))
     if ok.get('layout_diff'):
         return 'SPEC: the same arrays under ALF names load to different %s' % ok['layout_diff']
     if ok.get('created_wmi_ok') is False:
         return 'SPEC: the created whitening_mat_inv.npy is not the inverse of the whitening matrix'
     if ok.get('reopen_diff'):
         return 'SPEC: a second model opened on the same directory differs in %s' % ok['reopen_diff']
+    if ok.get('reuse_diff'):
+        return 'SPEC: after using the model (%s) its loaded attributes / the directory differ in %s' % (
+            ', '.join(ok.get('used') or []), ok['reuse_diff'])
     return None
 
 
@@ -259,6 +382,8 @@ def classify(case, impl_res, ans, why):
 
 
 def shrink(case):
+    if case.get('kind') == 'round':
+        return
     optional = [n for n in case['files'] if n not in ('spike_times.npy', 'spike_templates.npy', 'channel_map.npy', 'channel_positions.npy',
                                                        'spikes.times.npy', 'spikes.templates.npy', 'channels.rawInd.npy',
                                                        'channels.localCoordinates.npy', 'templates.npy', 'templates.waveforms.npy')]
@@ -291,10 +416,38 @@ def make_case(rng, i):
     tdt = rng.pick(['uint64', 'int64', 'int32', 'uint32'])
     if alf:
         tags.append('alf')
-        files['spikes.times.npy'] = F('float64', v(ns), [s / rate for s in samples])
-        if rng.random() < .5:
+        if i % 12 == 3:
+            # seconds written as samples / rate (what an exporter does): the products are integers up to rounding
+            files['spikes.times.npy'] = F('float64', v(ns), [s / rate for s in samples])
+            tags.append('alf_times_samples_over_rate')
+        else:
+            # seconds that are exact dyadic rationals k / tden: times * rate is computed exactly in float64 and has
+            # fractional part .25 / .5 / .75 (ties included): samples must be the product rounded half to even
+            rate, tden = rng.pick([(1000., 32), (2000., 64), (4000., 128), (30000., 64), (25000., 16),
+                                   (1024., 4096), (4096., 16384), (1000., 16)])
+            ks = sorted(rng.randrange(0, 4 * tden) for _ in range(ns))
+            if rng.random() < .5:
+                # make sure of one exact tie k * rate / tden = n + 1/2: with rate = 2^a * odd and tden = 2^j these are
+                # the odd multiples of 2^(j-1-a)
+                r_ = int(rate); a_ = (r_ & -r_).bit_length() - 1; j_ = tden.bit_length() - 1
+                if a_ <= j_ - 1:
+                    k0 = 1 << (j_ - 1 - a_)
+                    ks[rng.randrange(ns)] = k0 * (2 * rng.randrange(0, max(1, 2 * tden // k0)) + 1)
+                    ks.sort()
+            times = [k / tden for k in ks]
+            fr = [(Fraction(t) * Fraction(rate)) % 1 for t in times]
+            assert all(Fraction(t) * Fraction(rate) == Fraction(t * rate) for t in times)    # float products are exact
+            files['spikes.times.npy'] = F('float64', v(ns), times)
+            tags.append('alf_times_dyadic')
+            if any(f == Fraction(1, 2) for f in fr):
+                tags.append('alf_product_tie')
+            if any(f in (Fraction(1, 4), Fraction(3, 4)) for f in fr):
+                tags.append('alf_product_quarter')
+        if rng.random() < .3:
             files['spikes.samples.npy'] = F(tdt, v(ns), samples)
             tags.append('alf_samples_file')
+        else:
+            tags.append('alf_samples_rounded')
     else:
         files['spike_times.npy'] = F(tdt, v(ns), samples)
         if i % 11 == 4:
@@ -326,6 +479,12 @@ def make_case(rng, i):
     files[N('channel_map.npy', 'channels.rawInd.npy')] = F(rng.pick(['int32', 'int64', 'uint32']), v(nc), rng.sample(range(ncd), nc))
     cells = [(x, y) for x in range(4) for y in range(nc + 2)]
     files[N('channel_positions.npy', 'channels.localCoordinates.npy')] = F('float64', [nc, 2], [float(c) for xy in rng.sample(cells, nc) for c in (xy[0] * 10, xy[1] * 20)])
+    if i % 9 == 4:
+        # two channels on the same position: the loader replaces the table by the linear layout
+        pf = files[N('channel_positions.npy', 'channels.localCoordinates.npy')]
+        a_, b_ = rng.sample(range(nc), 2)
+        pf['data'][2 * b_:2 * b_ + 2] = pf['data'][2 * a_:2 * a_ + 2]
+        tags.append('positions_not_distinct')
     if rng.random() < .4:
         files[N('channel_shanks.npy', 'channels.shanks.npy')] = F('int32', [nc], [rng.randrange(2) for _ in range(nc)]); tags.append('shanks')
     if rng.random() < .4:
@@ -356,19 +515,53 @@ def make_case(rng, i):
     w = rng.randrange(3)
     if w:
         diag = [rng.pick([.5, 1., 2., 4.]) for _ in range(nc)]
-        files['whitening_mat.npy'] = F('float64', [nc, nc], [diag[a] if a == b else 0. for a in range(nc) for b in range(nc)])
+        wmd = [diag[a] if a == b else 0. for a in range(nc) for b in range(nc)]
+        if rng.random() < .2:
+            a_, b_ = rng.sample(range(nc), 2)
+            wmd[a_ * nc + b_] = rng.pick(['nan', 'inf', 'ninf'])      # off the diagonal: scrubbed to 0
+            tags.append('nan_in_whitening')
+        files['whitening_mat.npy'] = F('float64', [nc, nc], wmd)
         tags.append('whitening')
         if w == 2:
             files['whitening_mat_inv.npy'] = F('float64', [nc, nc], [1. / diag[a] if a == b else 0. for a in range(nc) for b in range(nc)])
             tags.append('whitening_inv_file')
     if rng.random() < .4:
-        files['similar_templates.npy'] = F('float32', [nt, nt], [float(rng.randrange(0, 5)) for _ in range(nt * nt)]); tags.append('similar')
+        sim = [float(rng.randrange(0, 5)) for _ in range(nt * nt)]
+        if rng.random() < .3:
+            sim[rng.randrange(nt * nt)] = rng.pick(['nan', 'inf', 'ninf']); tags.append('nan_in_similar')
+        files['similar_templates.npy'] = F('float32', [nt, nt], sim); tags.append('similar')
     if rng.random() < .4:
         npcs = 2
         nl = rng.randrange(2, nc + 1)
         files['pc_features.npy'] = F('float32', [ns, npcs, nl], [float(rng.randrange(-4, 5)) for _ in range(ns * npcs * nl)])
         files['pc_feature_ind.npy'] = F('uint32', [nt, nl], [c for _ in range(nt) for c in rng.sample(range(nc), nl)])
         tags.append('features')
+    if 'features' in tags and rng.random() < .5:
+        # features stored for a subset of the spikes only, with the table of their spike ids; non-finite cells
+        # stay as they are (the array is memory-mapped)
+        nf = rng.randrange(2, ns + 1)
+        pf = files['pc_features.npy']
+        nl_ = pf['shape'][2]
+        data = [float(rng.randrange(-4, 5)) for _ in range(nf * 2 * nl_)]
+        if rng.random() < .5:
+            data[rng.randrange(len(data))] = rng.pick(['nan', 'inf'])
+        files['pc_features.npy'] = F('float32', [nf, 2, nl_], data)
+        files['pc_feature_spike_ids.npy'] = F(rng.pick(['int64', 'uint32']), rng.pick([[nf], [nf, 1]]), sorted(rng.sample(range(ns), nf)))
+        tags.append('feature_spike_ids')
+    if rng.random() < .3:
+        ntf = rng.randrange(2, nt + 1)
+        nf = rng.pick([ns, rng.randrange(2, ns + 1)])
+        data = [float(rng.randrange(-4, 5)) for _ in range(nf * ntf)]
+        if rng.random() < .3:
+            data[rng.randrange(len(data))] = rng.pick(['nan', 'inf'])
+        files['template_features.npy'] = F('float32', [nf, ntf], data)
+        tags.append('template_features')
+        if rng.random() < .7:
+            files['template_feature_ind.npy'] = F('uint32', [nt, ntf], [c for _ in range(nt) for c in rng.sample(range(nt), ntf)])
+            tags.append('template_feature_ind')
+        if nf != ns or rng.random() < .3:
+            files['template_feature_spike_ids.npy'] = F('int64', [nf], sorted(rng.sample(range(ns), nf)))
+            tags.append('template_feature_spike_ids')
     if rng.random() < .3:
         files['spike_extra.npy'] = F('float64', v(ns), [float(rng.randrange(9)) for _ in range(ns)]); tags.append('extra_attr')
         if rng.random() < .5:
@@ -380,26 +573,66 @@ def make_case(rng, i):
             tags.append('extra_attr_underscore_names')
     if rng.random() < .2:
         files['spike_wrong.npy'] = F('float64', [ns + 1], [0.] * (ns + 1)); tags.append('extra_attr_wrong_length')
+    if i % 23 == 11 and not sparse:
+        # sparse templates with ONE local channel: the stored (nt, nsw, 1) / (nt, 1) arrays lose their last dimension
+        # when read and get it back (np.atleast_3d; `cols = np.atleast_2d(cols).T`, model.py:703, 721-722)
+        tn = N('templates.npy', 'templates.waveforms.npy')
+        files[tn] = F('float32', [nt, nsw, 1], [float(rng.randrange(-8, 9)) or 1. for _ in range(nt * nsw)])
+        files[N('template_ind.npy', 'templates.waveformsChannels.npy')] = F('int32', [nt, 1], [rng.randrange(nc) for _ in range(nt)])
+        tags[:] = [t for t in tags if t not in ('all_nan_template', 'some_nan_in_template', 'nan_channel_in_template')]
+        tags.append('sparse_one_local_channel')
+    if i % 29 == 13:
+        # no template file at all (and no curation): n_templates = highest template id + 1, zeros for the similarity
+        for n_ in [n for n in list(files) if n.startswith(('templates.', 'template_ind', 'spike_clusters', 'spikes.clusters',
+                                                           'pc_feature', 'similar_templates', 'template_feature'))]:
+            del files[n_]
+        tags[:] = [t for t in tags if t not in ('all_nan_template', 'some_nan_in_template', 'nan_channel_in_template',
+                                                'sparse_templates', 'sparse_one_local_channel', 'features', 'similar', 'nan_in_similar',
+                                                'feature_spike_ids', 'template_features', 'template_feature_ind',
+                                                'template_feature_spike_ids')]
+        if 'no_spike_clusters' not in tags:
+            tags.append('no_spike_clusters')
+        tags.append('no_templates')
     case = dict(p=PID, files=files, rate=rate, ncd=ncd, offset=rng.pick([0, 0, 6]), tags=tags)
     if rng.random() < .5:
         n_raw = rng.randrange(70, 90)
         k = rng.randrange(1, 4)
         cuts = sorted(rng.sample(range(1, n_raw), k - 1))
         b = [0] + cuts + [n_raw]
-        vals = [[(r * 7 + c * 3) % 50 - 25 for c in range(ncd)] for r in range(n_raw)]
+        vals = [[r * ncd + c - RAW_BIAS for c in range(ncd)] for r in range(n_raw)]      # distinct cells
         case['raw'] = [vals[x:y] for x, y in zip(b, b[1:])]
         tags.append('raw_%d_files' % k)
         if ncd > nc:
             tags.append('raw_wider_than_map')
+        if rng.random() < .25:
+            # a file ending in an incomplete row: the reader counts full rows only
+            case['raw_trailing'] = {str(rng.randrange(k)): rng.randrange(1, 2 * ncd)}
+            tags.append('raw_trailing_bytes')
+        # row indices at which model.traces[...] is observed (all inside C01's domain)
+        n = n_raw
+        lo = rng.randrange(0, n); hi = rng.randrange(lo + 1, n + 1)
+        neg = rng.random() < .5
+        items = [dict(slice=[None, None]),
+                 dict(list=sorted(rng.sample(range(n), rng.randrange(1, 6)))),
+                 dict(int=rng.randrange(-n, n)),
+                 dict(slice=[lo - n if neg else (lo or None), (hi - n if hi < n else None) if neg else hi])]
+        case['trace_items'] = items
     if rng.random() < .3:
         case['text'] = {'cluster_group.tsv': 'cluster_id\tgroup\n0\tgood\n1\tmua\n'}
+    if i % 7 == 3:
+        # coordinator scenario: use the model (template accesses with a template scaling), then inspect it again
+        case['use_then_reinspect'] = True
+        if rng.random() < .7:
+            case['template_scaling'] = rng.pick([2.0, 0.5, 3.0])
+            tags.append('template_scaling')
+        tags.append('use_then_reinspect')
     if float_times_reject:
         case['expect_reject'] = True
     if alf and i % 3 == 0:
         # ALF files carrying a label between the attribute name and the extension (spikes.times.probe00.npy):
         # found through the wildcard patterns
         lab = rng.pick(['probe00', 'imec1', 'a'])
-        for name in [n for n in list(files) if n.startswith(('spikes.', 'channels.'))]:
+        for name in [n for n in list(files) if n.startswith(('spikes.', 'channels.', 'templates.waveforms'))]:
             files[name[:-4] + '.' + lab + '.npy'] = files.pop(name)
         tags.append('alf_labelled_names')
     if i % 19 == 5 and 'amplitudes.npy' in files:
@@ -410,7 +643,7 @@ def make_case(rng, i):
         files['channels.rawInd.npy'] = F('int32', files['channel_map.npy']['shape'], list(reversed(files['channel_map.npy']['data'])))
         tags.append('two_candidates_channel_map')
     if alf and i % 13 == 7:
-        st_ = files.get('spikes.times.npy')
+        st_ = next((f for n_, f in files.items() if n_.startswith('spikes.times')), None)
         if st_ is not None and len(st_['data']) >= 2 and st_['data'][0] != st_['data'][-1]:
             st_['data'][0], st_['data'][-1] = st_['data'][-1], st_['data'][0]
             case['expect_reject'] = True
@@ -433,6 +666,14 @@ def make_case(rng, i):
 
 def gen(tier, rng):
     q = tier == 'quick'
+    # np.round against the model's rounding: dyadic rationals with all fractional parts, both signs, ties
+    for _ in range(4 if q else 40):
+        qs = []
+        for _ in range(50):
+            den = 2 ** rng.randrange(0, 6)
+            qs.append([rng.randrange(-2000, 2000) if rng.random() < .8 else rng.randrange(-2 ** 40, 2 ** 40), den])
+        qs += [[2 * k + 1, 2] for k in range(-6, 6)]
+        yield dict(p=PID, kind='round', qs=qs, tags=['np_round_vs_model'])
     for i in range(400 if q else 6000):
         c = make_case(rng, i)
         st = c['files'].get('spike_times.npy')
